@@ -1,6 +1,7 @@
 import PB.Model.FsAtomic
 import PB.Spec.FsCrash
 import PB.Model.FsSerial
+import PBProofs.Lemmas.FsInterleave
 import PBProofs.Lemmas.FsAtomic
 import PBProofs.Lemmas.FsWriters
 import PBProofs.Lemmas.FsDownload
@@ -699,6 +700,36 @@ theorem unpack_two_writers_atomic (dest : Path) (P : Obs → Prop) (wa wb : Writ
   · exact serialised_writers_atomic dest P [wb, wa]
       (by intro w hw; simp only [List.mem_cons, List.not_mem_nil, or_false] at hw; rcases hw with rfl | rfl <;> assumption)
       s0 h0 p q (ht ▸ hpq)
+
+/-! Writers that need NO serialisation: renameio's private temp files. -/
+
+/-- Two renameio writers of ONE destination that are not serialised at all (two downloads / two File.Unpack of the
+    same file, each with its own O_EXCL temp file and descriptor): EVERY interleaving of their two call sequences
+    (924) is accepted by the single-file checker — readers and crash outcomes see old or new throughout — whether
+    the destination was absent or held a previous file. Bounded: the concrete one-chunk content `oneChunk`
+    (kernel exploration in Lemmas/FsInterleave.lean; `Interleave` is the inductive definition, unbounded). -/
+theorem two_renameio_writers_any_interleaving :
+    ∀ old ∈ [none, some (([⟨0, 0, 100⟩] : Content), 0o644)], ∀ t,
+      Interleave (publishSeq tmpF destF 6 0o644 oneChunk) (publishSeq tmpF2 destF 7 0o600 oneChunk) t →
+      safePublish (baseFS old) destF (baseOld old) (some (.file (written oneChunk), [])) t = true := by
+  intro old hold t ht
+  simp only [List.mem_cons, List.not_mem_nil, or_false] at hold
+  rcases hold with rfl | rfl
+  · exact List.all_eq_true.1 renameio_pair_explored_absent t (interleave_mem ht)
+  · exact List.all_eq_true.1 renameio_pair_explored_file t (interleave_mem ht)
+
+/-- … and that rests on the temp file being PRIVATE: with one shared temp name (opened O_TRUNC instead of
+    O_EXCL under a fresh name) some interleaving publishes a fragment — B truncates what A is about to rename. -/
+def sharedTmpSeq (fd : Nat) : List Call :=
+  [.openC tmpF true false true 0o600 (some fd), .fchmod fd 0o644] ++ oneChunk.map (.write fd) ++
+  [.fsync fd, .close fd, .rename tmpF destF]
+
+theorem shared_temp_name_needs_serialisation :
+    ∃ t, Interleave (sharedTmpSeq 6) (sharedTmpSeq 7) t ∧
+      safePublish (baseFS none) destF none (some (.file (written oneChunk), [])) t = false := by
+  refine ⟨(sharedTmpSeq 6).take 3 ++ (sharedTmpSeq 7).take 1 ++ (sharedTmpSeq 6).drop 3 ++ (sharedTmpSeq 7).drop 1, ?_, by decide⟩
+  simp only [sharedTmpSeq, oneChunk, List.map, List.cons_append, List.nil_append, List.take, List.drop]
+  repeat (first | exact Interleave.nil | apply Interleave.left | apply Interleave.right)
 
 /-- Two unpackers of one archive (members `a.txt`, `b`) that are NOT serialised, as recorded from the code with
     `RLock` in `UnpackArchive`: both find the destination absent and work in the same name-derived temp directory
